@@ -100,6 +100,9 @@ func runReplay(path string, wantSnap bool) (*historyResult, error) {
 				if k == "resetThrottle" {
 					cfg.resetThrottle = n
 				}
+				if k == "flat" {
+					cfg.flat = n == 1
+				}
 			}
 		}
 	}
@@ -109,7 +112,7 @@ func runReplay(path string, wantSnap bool) (*historyResult, error) {
 		return nil, err
 	}
 	w.wantSnap = wantSnap
-	hr := &historyResult{Profile: "replay", RefThr: cfg.referenceThrottle, RstThr: cfg.resetThrottle}
+	hr := &historyResult{Profile: "replay", RefThr: cfg.referenceThrottle, RstThr: cfg.resetThrottle, Flat: cfg.flat}
 	client := func(name string) *wsClient {
 		for _, c := range w.clients {
 			if c.name == name {
@@ -164,6 +167,18 @@ func runReplay(path string, wantSnap bool) (*historyResult, error) {
 			w.rawFrame(client(p[1]), string(b))
 		case "disconnect":
 			w.disconnect(client(p[1]))
+		case "http":
+			// http hN GET <rid> | http hN GET404 : re-issue as a path
+			if len(p) > 3 {
+				rid := p[3]
+				name, query := rid, ""
+				if i := strings.IndexByte(rid, '?'); i >= 0 {
+					name, query = rid[:i], rid[i+1:]
+				}
+				w.httpGet("/api/"+strings.ReplaceAll(name, ".", "/"), query)
+			} else {
+				w.httpGet("/api/m/a/", "")
+			}
 		case "evict":
 			w.evict()
 		case "answer":
